@@ -114,6 +114,7 @@ func ReadMultiTrees(reader *bufio.Reader, format int) <-chan tree.Trees {
 				}
 			}
 			for e == nil {
+				tree.VerifYield()
 				parser := newick.NewParser(strings.NewReader(line))
 				if compTree, err = parser.Parse(); err != nil {
 					compTrees <- tree.Trees{
